@@ -63,7 +63,8 @@ def cases(draw):
          "mstyle": draw(st.sampled_from(["absolute", "relative"])),
          "fmtU": draw(st.booleans()),
          "alevel": draw(st.sampled_from([1, 2, 0, 1])),      # fiber arithmetic: 0 = at a leaf fiber, else interior
-         "val": draw(st.sampled_from([3, 5, -2, 7])),
+         # (the neutral elements 1 and 0 are "nothing to do" arguments: the result is a new object all the same)
+         "val": draw(st.sampled_from([3, 5, -2, 7, 1, 0, 1])),
          "other": draw(st.lists(st.tuples(st.integers(0, 5), st.sampled_from([1, 2, 4, -1, 0])), max_size=4))}
     shape = [draw(st.integers(1, 5)) for _ in range(d)]
     default = draw(st.sampled_from([0, 0, 0, 2]))
@@ -316,9 +317,9 @@ def check(case, rec):
         elif k == "mul_fiber":
             res = lf * g
         elif k == "add_scalar":
-            res = lf + case["val"]
+            res = (lf + case["val"]) if sel[3] % 2 else (case["val"] + lf)
         else:
-            res = lf * case["val"]
+            res = (lf * case["val"]) if sel[3] % 2 else (case["val"] * lf)
         gs.unchanged(f"{k} (right operand)")
         check_disjoint(res, g, f"{k} vs right operand", rec)
     else:
@@ -348,11 +349,11 @@ def check_disjoint(res, operand, where, rec):
 
 def follow_up(res, holder, st0, case, rec, where):
     """mutate the result -> operand unchanged; mutate the operand -> result unchanged"""
-    changed = mutate(res, case["val"])
+    changed = mutate(res, case["val"] or 9)
     st0.unchanged(f"{where}: after mutating the result")
     rroot = res.getRoot() if isinstance(res, Tensor) else res
     rsnap = observe.snap(rroot)
-    changed2 = mutate(holder, case["val"] + 1)
+    changed2 = mutate(holder, (case["val"] + 1) or 11)
     if observe.snap(rroot) != rsnap:
         raise Violation("aliasing", f"{where}: mutating the operand changed the result")
     return changed or changed2
